@@ -242,7 +242,7 @@ def run(chk):
                '**kern\n4c\n*-\n!x\n', '**kern\n4c\n*-\n*-\n', '**kern\n4c\t\n*-\n']
     for t in surplus:
         jobs.append(('text', ('surplus', t)))
-    ngen = 600 if full else 90
+    ngen = core.budget(chk, full, 90, 600)
     for i in range(ngen):
         jobs.append(('gen', (chk.seed, i)))
     chk.rule = ('every spine-operator layout (split / join runs / terminate per live path) up to depth 3 and width 4 (6 in the '
